@@ -79,6 +79,16 @@ NEEDS = {
  "C19-r2m2": ("changesets.go + search.go: the changeset off-by-one correction moved out of the path the search uses (two sites)", "changeset replication, query in the newest interval or after all states"),
  "C19-r2m3": ("search.go findInRange: loop bound sID >= below and below = split.SeqNum (two edits)", "a run of missing files directly above an existing state with the query inside the hole (endless requests)"),
 }
+import re
+PKG_DIR = {"osm_test": ".", "osm": ".", "annotate_test": "annotate", "annotate": "annotate", "osmapi_test": "osmapi", "osmapi": "osmapi",
+           "osmgeojson_test": "osmgeojson", "osmgeojson": "osmgeojson", "osmxml_test": "osmxml", "osmxml": "osmxml",
+           "replication_test": "replication", "replication": "replication", "osmpbf_test": "osmpbf", "osmpbf": "osmpbf"}
+def demo_info(d, name):
+    """same placement rule as tools/confirm_mutants.sh: by the demo's package clause"""
+    src = open(d + '/demo_test.go').read()
+    pkg = re.search(r'^package (\w+)', src, re.M).group(1)
+    tests = "|".join(re.findall(r'^func (Test\w*)\(', src, re.M))
+    return PKG_DIR.get(pkg, "zz_demo_" + name.replace('-', '').lower()), tests
 matrix = {}
 if os.path.exists('/verif/seeded/matrix.tsv'):
     for row in csv.reader(open('/verif/seeded/matrix.tsv'), delimiter='\t'):
@@ -90,8 +100,7 @@ for name in sorted(NEEDS):
     change, needs = NEEDS[name]
     code, sig = matrix.get(name, ("", ""))
     prop = name.split('-')[0]
-    demo_dir = open(d + '/.demo_dir').read().strip() if os.path.exists(d + '/.demo_dir') else ''
-    tests = open(d + '/.demo_tests').read().strip() if os.path.exists(d + '/.demo_tests') else ''
+    demo_dir, tests = demo_info(d, name)
     meta = {
         "id": name, "breaks_property": prop, "change": change, "needs_to_manifest": needs,
         "origin": "fresh sub-agent given only the property text and a scratch worktree",
